@@ -606,7 +606,7 @@ Proof.
 Qed.
 
 (* ---------- acquire_block, the new block in a register: all three cases ---------- *)
-Ltac rg := repeat first [rewrite rget_set_flags | rewrite rget_hset | rewrite rget_rset_other by (first [congruence|discriminate])].
+Ltac rg := repeat first [rewrite rget_set_flags | rewrite rget_hset | rewrite rget_sset | rewrite rget_rset_other by (first [congruence|discriminate])].
 
 Theorem x86_acquire_block_reg_ok pos r lc s sp rv h2 F :
   let cs := fst (acquire_block (XR r) lc) in
@@ -797,6 +797,206 @@ Proof.
     + reflexivity.
     + intros r' A B C D. destruct SB3 as (A3 & _), SB2 as (A2 & _), SB1 as (A1 & _). rewrite A3, A2, A1 by auto. unfold sm. rewrite rget_hset. now apply P6o.
     + destruct SB3 as (_ & A3 & _), SB2 as (_ & A2 & _), SB1 as (_ & A1 & _). rewrite A3, A2, A1. reflexivity.
+    + destruct SB3 as (_ & _ & A3), SB2 as (_ & _ & A2), SB1 as (_ & _ & A1). rewrite A3, A2, A1. reflexivity.
+    + exact FR3.
+Qed.
+
+(* ---------- acquire_block, the new block in a spill slot ---------- *)
+Theorem x86_acquire_block_spill_ok pos q lc s sp rv h2 F :
+  let cs := fst (acquire_block (XS q) lc) in
+  code_at im pos cs -> labels_at im pos cs ->
+  frame_ok s sp -> slot_ok q ->
+  rget s HEAP = Some rv -> is_blk rv -> rget s FREE = Some h2 ->
+  (hword s rv = 0 -> is_blk h2) ->
+  (hword s rv = 0 -> hword s h2 <> 0 ->
+     (forall off, off = 16 \/ off = 32 \/ off = 48 -> hword s (h2 + off) = 0 \/ is_blk (hword s (h2 + off))) /\
+     bounded 3 s (hword s h2)) ->
+  exists s', steps im pos s (pnth pos (List.length cs)) s' /\
+    st_eqB (abs_heap (Heap.frontier (snd (Heap.acquire (abs_heap F s)))) s') (snd (Heap.acquire (abs_heap F s))) /\
+    sget s' sp q = Some rv /\ fst (Heap.acquire (abs_heap F s)) = rv /\
+    (forall r', r' <> TEMP -> r' <> HEAP -> r' <> FREE -> rget s' r' = rget s r') /\
+    (forall q', slot_ok q' -> q' <> q -> sget s' sp q' = sget s sp q') /\ out s' = out s /\ frame_ok s' sp.
+Proof.
+  intros cs HC HL FR Q Hh Hb Hf Hb2 Hch. unfold cs in *. clear cs.
+  unfold acquire_block, erase_fields in *. change (nseq 0 FIELDS_PER_BLOCK) with [0;1;2]%N in *.
+  cbn [fold_left x_erase_block erase_valid_object if_zero_then_else skip_if_zero compare_immediate fst snd app List.length] in *.
+  assert (HA : Heap.heap (abs_heap F s) = rv) by (unfold abs_heap, reg_or0; cbn [Heap.heap]; now rewrite Hh).
+  assert (FA : Heap.free (abs_heap F s) = h2) by (unfold abs_heap, reg_or0; cbn [Heap.free]; now rewrite Hf).
+  pose proof (blk_heap_addr rv Hb) as Ha.
+  set (s0 := rset s TEMP (Some rv)).
+  assert (F0 : frame_ok s0 sp) by (apply frame_ok_rset; [discriminate|exact FR]).
+  set (s1 := sset s0 sp q (Some rv)).
+  set (s2 := rset s1 HEAP (Some (hword s rv))).
+  set (s3 := set_flags s2 (Some (hword s rv, 0))).
+  assert (P1 : rget s1 HEAP = Some rv) by (unfold s1, s0; rewrite rget_sset, rget_rset_other by discriminate; exact Hh).
+  assert (ST3 : forall pc' s', steps im (pnth pos 4) s3 pc' s' -> steps im pos s pc' s').
+  { intros pc' s' H.
+    nxt HC 0%nat. { cbn [step]. rewrite Hh. reflexivity. }
+    nxt HC 1%nat. { rewrite (step_MOVS_slot im s0 sp F0) by exact Q. unfold s0 at 2. rewrite rget_rset_other by discriminate. rewrite Hh. reflexivity. }
+    nxt HC 2%nat. { change NEXT_ELEMENT_OFFSET with 0. eapply step_MOVL_heap; [exact P1|rewrite Z.add_0_r; exact Ha]. }
+    nxt HC 3%nat. { apply step_CMPI0. rewrite Z.add_0_r. apply rget_rset_same. }
+    rewrite Z.add_0_r. exact H. }
+  unfold Heap.acquire. rewrite HA, FA.
+  change (Heap.hdr (Heap.m (abs_heap F s) rv)) with (hword s rv).
+  change (Heap.hdr (Heap.m (abs_heap F s) h2)) with (hword s h2).
+  destruct (Z.eqb_spec (hword s rv) 0) as [H0|Hn0]; cbn [negb].
+  2:{ (* case 1 *)
+    exists (hset s3 rv 0). split; [|split; [|split; [|split; [|split; [|split; [|split]]]]]].
+    - apply ST3.
+      nxt HC 4%nat. { rewrite (step_JEL im _ _ (hword s rv) 0) by reflexivity. destruct (Z.eqb_spec (hword s rv) 0); [contradiction|reflexivity]. }
+      nxt HC 5%nat. { change REFERENCE_COUNT_OFFSET with 0. eapply step_MOVIM_heap; [|exact Ha|reflexivity].
+        unfold s3, s2, s1, s0. rg. apply rget_rset_same. }
+      jmp HC 6%nat. { cbn [step]. unfold goto_label. rewrite (HL 54%nat _ eq_refl). reflexivity. }
+      nxt HC 54%nat. { reflexivity. }
+      apply steps_refl.
+    - cbn [snd Heap.frontier]. split; [|split; [|split; [reflexivity|]]].
+      + cbn [abs_heap Heap.heap]. unfold reg_or0. rewrite rget_hset. unfold s3, s2. rewrite rget_set_flags, rget_rset_same. reflexivity.
+      + cbn [abs_heap Heap.free]. unfold reg_or0. unfold s3, s2, s1, s0. rg. now rewrite Hf.
+      + intros x Hx. cbn [abs_heap Heap.m]. change (abs_mem (hset s3 rv 0) x) with (abs_mem (hset s rv 0) x). now apply abs_mem_hset.
+    - change (sget (hset s3 rv 0) sp q) with (sget s1 sp q). unfold s1. apply sget_sset_same.
+    - reflexivity.
+    - intros r' A C D. unfold s3, s2, s1, s0. rg. reflexivity.
+    - intros q' Q' N. change (sget (hset s3 rv 0) sp q') with (sget s1 sp q'). unfold s1. rewrite sget_sset_other by (auto; apply FR). apply sget_rset.
+    - reflexivity.
+    - apply frame_ok_hset, frame_ok_set_flags. unfold s2, s1. apply frame_ok_rset; [discriminate|]. apply frame_ok_sset. exact F0. }
+  pose proof (Hb2 H0) as Hbh2. pose proof (blk_heap_addr h2 Hbh2) as Ha2.
+  set (s4 := rset s3 HEAP (Some h2)).
+  set (s5 := rset s4 FREE (Some (hword s h2))).
+  set (s6 := set_flags s5 (Some (hword s h2, 0))).
+  assert (P3F : rget s3 FREE = Some h2).
+  { unfold s3, s2, s1, s0. rg. exact Hf. }
+  assert (P4F : rget s4 FREE = Some h2) by (unfold s4; rewrite rget_rset_other by discriminate; exact P3F).
+  assert (ST6 : forall pc' s', steps im (pnth pos 11) s6 pc' s' -> steps im pos s pc' s').
+  { intros pc' s' H. apply ST3.
+    jmp HC 4%nat. { rewrite (step_JEL im _ _ (hword s rv) 0) by reflexivity. rewrite H0. cbn [Z.eqb]. unfold goto_label. rewrite (HL 7%nat _ eq_refl). reflexivity. }
+    nxt HC 7%nat. { reflexivity. }
+    nxt HC 8%nat. { cbn [step]. rewrite P3F. reflexivity. }
+    nxt HC 9%nat. { change NEXT_ELEMENT_OFFSET with 0. eapply step_MOVL_heap; [exact P4F|rewrite Z.add_0_r; exact Ha2]. }
+    nxt HC 10%nat. { apply step_CMPI0. rewrite Z.add_0_r. apply rget_rset_same. }
+    rewrite Z.add_0_r. exact H. }
+  assert (P6q : sget s6 sp q = Some rv).
+  { change (sget s6 sp q) with (sget s1 sp q). unfold s1. apply sget_sset_same. }
+  assert (P6s : forall q', slot_ok q' -> q' <> q -> sget s6 sp q' = sget s sp q').
+  { intros q' Q' N. change (sget s6 sp q') with (sget s1 sp q'). unfold s1. rewrite sget_sset_other by (auto; apply FR). apply sget_rset. }
+  assert (P6H : rget s6 HEAP = Some h2).
+  { unfold s6, s5. rg. apply rget_rset_same. }
+  assert (P6o : forall r', r' <> TEMP -> r' <> HEAP -> r' <> FREE -> rget s6 r' = rget s r').
+  { intros r' B C D. unfold s6, s5, s4, s3, s2, s1, s0. rg. reflexivity. }
+  assert (F6 : frame_ok s6 sp).
+  { unfold s6, s5, s4, s3, s2, s1. apply frame_ok_set_flags. apply frame_ok_rset; [discriminate|]. apply frame_ok_rset; [discriminate|].
+    apply frame_ok_set_flags. apply frame_ok_rset; [discriminate|]. apply frame_ok_sset. exact F0. }
+  destruct (Z.eqb_spec (hword s h2) 0) as [Hf0|Hfn].
+  - (* case 3: bump *)
+    set (s7 := rset s6 FREE (Some h2)).
+    exists (set_flags (rset s7 FREE (Some (wrap (h2 + 64)))) None).
+    assert (W : wrap (h2 + 64) = h2 + 64).
+    { apply wrap_id. destruct Hbh2 as (k & Hk & -> & Hhi). unfold min_int, max_int, two63, HEAP_BASE, HEAP_SIZE in *. lia. }
+    split; [|split; [|split; [|split; [|split; [|split; [|split]]]]]].
+    + apply ST6.
+      jmp HC 11%nat. { rewrite (step_JEL im _ _ (hword s h2) 0) by reflexivity. rewrite Hf0. cbn [Z.eqb]. unfold goto_label. rewrite (HL 50%nat _ eq_refl). reflexivity. }
+      nxt HC 50%nat. { reflexivity. }
+      nxt HC 51%nat. { cbn [step]. rewrite P6H. reflexivity. }
+      nxt HC 52%nat. { eapply step_ADDI; [apply rget_rset_same|reflexivity]. }
+      nxt HC 53%nat. { reflexivity. }
+      nxt HC 54%nat. { reflexivity. }
+      apply steps_refl.
+    + cbn [snd Heap.frontier]. split; [|split; [|split; [reflexivity|intros; reflexivity]]].
+      * cbn [abs_heap Heap.heap]. unfold reg_or0. rewrite rget_set_flags, rget_rset_other by discriminate. unfold s7. rewrite rget_rset_other by discriminate. now rewrite P6H.
+      * cbn [abs_heap Heap.free]. unfold reg_or0. rewrite rget_set_flags, rget_rset_same. exact W.
+    + exact P6q.
+    + reflexivity.
+    + intros r' B C D. rewrite rget_set_flags. unfold s7. rewrite !rget_rset_other by (first [congruence|discriminate]). now apply P6o.
+    + exact P6s.
+    + reflexivity.
+    + apply frame_ok_set_flags. unfold s7. do 2 (apply frame_ok_rset; [discriminate|]). exact F6.
+  - (* case 2: recycle the first deferred block, erase its children *)
+    destruct (Hch H0 Hfn) as [Hkids [B1 B2]].
+    set (f' := hword s h2) in *.
+    set (sm := hset s6 h2 0).
+    pose proof (is_blk_nonneg h2 Hbh2) as Hh2nn.
+    assert (Wm : forall x, 0 <= x -> x <> h2 -> hword sm x = hword s x).
+    { intros x A B. unfold sm. rewrite hword_hset_other by auto. reflexivity. }
+    assert (PmH : rget sm HEAP = Some h2) by exact P6H.
+    assert (PmF : rget sm FREE = Some f') by (unfold sm, s6, s5; rg; apply rget_rset_same).
+    assert (Fm : frame_ok sm sp) by (apply frame_ok_hset; exact F6).
+    assert (Bm : bounded 3 sm f').
+    { split; [|exact B2]. intros x Hx. destruct (Z.eq_dec x h2) as [->|Hne].
+      - unfold sm. rewrite hword_hset_same. unfold min_int, max_int, two63. lia.
+      - rewrite Wm by (auto using is_blk_nonneg). now apply B1. }
+    set (a1 := {| Heap.m := Heap.set_hdr (Heap.m (abs_heap F s)) h2 0; Heap.heap := h2; Heap.free := f'; Heap.frontier := Heap.frontier (abs_heap F s) |}).
+    assert (Em : st_eqB (abs_heap F sm) a1).
+    { unfold a1. split; [|split; [|split; [reflexivity|]]].
+      - cbn [abs_heap Heap.heap]. unfold reg_or0. now rewrite PmH.
+      - cbn [abs_heap Heap.free]. unfold reg_or0. now rewrite PmF.
+      - intros x Hx. cbn [abs_heap Heap.m]. change (abs_mem sm x) with (abs_mem (hset s h2 0) x). now apply abs_mem_hset. }
+    set (c1 := hword s (h2 + 16)). set (c2 := hword s (h2 + 32)). set (c3 := hword s (h2 + 48)).
+    assert (K1 : c1 = 0 \/ is_blk c1) by (apply Hkids; auto).
+    assert (K2 : c2 = 0 \/ is_blk c2) by (apply Hkids; auto).
+    assert (K3 : c3 = 0 \/ is_blk c3) by (apply Hkids; auto).
+    assert (Cm : hword sm (h2 + 16) = c1 /\ hword sm (h2 + 32) = c2 /\ hword sm (h2 + 48) = c3).
+    { repeat split; apply Wm; lia. }
+    destruct Cm as (Cm1 & Cm2 & Cm3).
+    (* the slots of the recycled block are not changed by the erasures *)
+    assert (Slots : forall s' a, st_eqB (abs_heap F s') (Heap.erase a (abs_heap F sm)) ->
+              hword s' (h2 + 16) = c1 /\ hword s' (h2 + 32) = c2 /\ hword s' (h2 + 48) = c3).
+    { intros s' a (_ & _ & _ & E). specialize (E h2 Hbh2). apply (f_equal Heap.ps) in E. rewrite erase_ps_abs in E.
+      cbn [abs_heap Heap.m abs_mem Heap.ps] in E. inversion E. rewrite Cm1, Cm2, Cm3 in *. auto. }
+    (* first child *)
+    assert (HC1 : code_at im (pnth pos 13) (MOVL TEMP HEAP 16 :: fst (x_erase_block (XR TEMP) lc))) by (apply (code_at_slice _ _ _ 13 _ HC); reflexivity).
+    assert (HL1 : labels_at im (pnth pos 13) (MOVL TEMP HEAP 16 :: fst (x_erase_block (XR TEMP) lc))) by (apply (labels_at_slice _ _ _ 13 _ HL); reflexivity).
+    destruct (x86_erase_field_ok (pnth pos 13) 16 lc sm sp h2 f' F HC1 HL1 ltac:(auto) Fm PmH Hbh2 PmF) as (se1 & ST1 & EQ1 & SB1 & FR1 & FREE1).
+    { rewrite Cm1. exact K1. }
+    { rewrite Cm1. intros A B. apply wrap_id. destruct K1 as [|Kb]; [contradiction|]. pose proof (proj1 Bm c1 Kb). lia. }
+    rewrite Cm1 in *.
+    assert (Efm : Heap.free (abs_heap F sm) = f') by (destruct Em as (_ & E & _); exact E).
+    set (am := abs_heap F sm) in *.
+    pose proof (bounded_after_erase F 2 sm f' se1 c1 Bm ltac:(lia) Efm K1 EQ1) as Bd1. fold am in Bd1.
+    destruct (Slots se1 c1 EQ1) as (_ & S12 & S13).
+    assert (P1H : rget se1 HEAP = Some h2) by (destruct SB1 as (A & _); rewrite A by discriminate; exact PmH).
+    (* second child *)
+    assert (HC2 : code_at im (pnth pos 25) (MOVL TEMP HEAP 32 :: fst (x_erase_block (XR TEMP) (lc + 2 + 1)))) by (apply (code_at_slice _ _ _ 25 _ HC); reflexivity).
+    assert (HL2 : labels_at im (pnth pos 25) (MOVL TEMP HEAP 32 :: fst (x_erase_block (XR TEMP) (lc + 2 + 1)))) by (apply (labels_at_slice _ _ _ 25 _ HL); reflexivity).
+    destruct (x86_erase_field_ok (pnth pos 25) 32 (lc + 2 + 1) se1 sp h2 _ F HC2 HL2 ltac:(auto) FR1 P1H Hbh2 FREE1) as (se2 & ST2 & EQ2 & SB2 & FR2 & FREE2).
+    { rewrite S12. exact K2. }
+    { rewrite S12. intros A B. apply wrap_id. destruct K2 as [|Kb]; [contradiction|]. pose proof (proj1 Bd1 c2 Kb). lia. }
+    rewrite S12 in *.
+    assert (EQ2' : st_eqB (abs_heap F se2) (Heap.erase c2 (Heap.erase c1 am))).
+    { eapply st_eqB_trans; [exact EQ2|]. apply erase_st_eqB; auto. }
+    assert (Ef1 : Heap.free (abs_heap F se1) = Heap.free (Heap.erase c1 am)) by (destruct EQ1 as (_ & E & _); exact E).
+    pose proof (bounded_after_erase F 1 se1 _ se2 c2 Bd1 ltac:(lia) Ef1 K2 EQ2) as Bd2.
+    assert (S23 : hword se2 (h2 + 48) = c3).
+    { destruct EQ2' as (_ & _ & _ & E). specialize (E h2 Hbh2). apply (f_equal Heap.ps) in E. rewrite !erase_ps_abs in E.
+      unfold am in E. cbn [abs_heap Heap.m abs_mem Heap.ps] in E. inversion E. rewrite Cm3 in *. auto. }
+    assert (P2H : rget se2 HEAP = Some h2) by (destruct SB2 as (A & _); rewrite A by discriminate; exact P1H).
+    (* third child *)
+    assert (HC3 : code_at im (pnth pos 37) (MOVL TEMP HEAP 48 :: fst (x_erase_block (XR TEMP) (lc + 2 + 1 + 2 + 1)))) by (apply (code_at_slice _ _ _ 37 _ HC); reflexivity).
+    assert (HL3 : labels_at im (pnth pos 37) (MOVL TEMP HEAP 48 :: fst (x_erase_block (XR TEMP) (lc + 2 + 1 + 2 + 1)))) by (apply (labels_at_slice _ _ _ 37 _ HL); reflexivity).
+    destruct (x86_erase_field_ok (pnth pos 37) 48 (lc + 2 + 1 + 2 + 1) se2 sp h2 _ F HC3 HL3 ltac:(auto) FR2 P2H Hbh2 FREE2) as (se3 & ST3' & EQ3 & SB3 & FR3 & FREE3).
+    { rewrite S23. exact K3. }
+    { rewrite S23. intros A B. apply wrap_id. destruct K3 as [|Kb]; [contradiction|]. pose proof (proj1 Bd2 c3 Kb). lia. }
+    rewrite S23 in *.
+    assert (EQ3' : st_eqB (abs_heap F se3) (Heap.erase c3 (Heap.erase c2 (Heap.erase c1 a1)))).
+    { eapply st_eqB_trans; [exact EQ3|]. apply erase_st_eqB; auto.
+      eapply st_eqB_trans; [exact EQ2'|]. apply erase_st_eqB; auto. apply erase_st_eqB; auto. }
+    exists se3. split; [|split; [|split; [|split; [|split; [|split; [|split]]]]]].
+    + apply ST6.
+      nxt HC 11%nat. { rewrite (step_JEL im _ _ (hword s h2) 0) by reflexivity. fold f'. destruct (Z.eqb_spec f' 0); [contradiction|reflexivity]. }
+      nxt HC 12%nat. { change NEXT_ELEMENT_OFFSET with 0. eapply step_MOVIM_heap; [exact P6H|exact Ha2|reflexivity]. }
+      fold sm.
+      eapply steps_trans; [exact ST1|]. eapply steps_trans; [exact ST2|]. eapply steps_trans; [exact ST3'|].
+      jmp HC 49%nat. { cbn [step]. unfold goto_label. rewrite (HL 53%nat _ eq_refl). reflexivity. }
+      nxt HC 53%nat. { reflexivity. }
+      nxt HC 54%nat. { reflexivity. }
+      apply steps_refl.
+    + cbn [snd]. cbn [abs_heap Heap.m abs_mem Heap.ps fold_left]. fold c1 c2 c3. fold f'.
+      assert (FE : Heap.frontier (Heap.erase c3 (Heap.erase c2 (Heap.erase c1 a1))) = F).
+      { destruct EQ3' as (_ & _ & E & _). rewrite <- E. reflexivity. }
+      change {| Heap.m := Heap.set_hdr (abs_mem s) h2 0; Heap.heap := h2; Heap.free := f'; Heap.frontier := F |} with a1.
+      rewrite FE. exact EQ3'.
+    + destruct SB3 as (_ & A3 & _), SB2 as (_ & A2 & _), SB1 as (_ & A1 & _). unfold sget. rewrite A3, A2, A1. exact P6q.
+    + reflexivity.
+    + intros r' B C D. destruct SB3 as (A3 & _), SB2 as (A2 & _), SB1 as (A1 & _). rewrite A3, A2, A1 by auto. unfold sm. rewrite rget_hset. now apply P6o.
+    + intros q' Q' N. destruct SB3 as (_ & A3 & _), SB2 as (_ & A2 & _), SB1 as (_ & A1 & _). unfold sget. rewrite A3, A2, A1. now apply P6s.
     + destruct SB3 as (_ & _ & A3), SB2 as (_ & _ & A2), SB1 as (_ & _ & A1). rewrite A3, A2, A1. reflexivity.
     + exact FR3.
 Qed.
